@@ -1892,6 +1892,13 @@ func (h *fsmHandler) recvMessageloop(ctx context.Context, conn net.Conn, holdtim
 				doCallback := true
 				m := fmsg.MsgData.(*bgp.BGPMessage)
 				switch m.Header.Type {
+				case bgp.BGP_MSG_OPEN:
+					// RFC 4271 8.2.2, RFC 6608: an OPEN is unexpected in
+					// Established state. The data field carries the type of
+					// the unexpected message.
+					nonblockSendChannel(h.fsm.notification, bgp.NewBGPNotificationMessage(bgp.BGP_ERROR_FSM_ERROR, bgp.BGP_ERROR_SUB_RECEIVE_UNEXPECTED_MESSAGE_IN_ESTABLISHED_STATE, []byte{m.Header.Type}))
+					// finish the loop
+					return
 				case bgp.BGP_MSG_ROUTE_REFRESH:
 					// nothing to do here
 				case bgp.BGP_MSG_UPDATE:
